@@ -54,10 +54,17 @@ pub fn run(ctx: &Ctx) -> Outcome {
         run_and_report(ctx, &mtu(ctx.tier, 700, Some(600), None, 1, ctx.tier.pick(6, 8)), &mut out);
         run_and_report(ctx, &mtu(ctx.tier, 700, None, Some(620), 1, ctx.tier.pick(6, 8)), &mut out);
         run_and_report(ctx, &rx(ctx.tier, 4, vec![MSS, 1], ctx.tier.pick(6, 8)), &mut out);
+        // reader, writer and connection on different threads: what poll_read returns under every
+        // interleaving of their critical sections
+        use crate::solo::threads::*;
+        let tc = ThreadsCfg { base_depth: ctx.tier.pick(2, 3), preemption_bound: ctx.tier.pick(Some(2), Some(3)), max_runs_per_case: ctx.tier.pick(2_000, 100_000), with_suffix: true, triples: true };
+        explore_threads(ctx, &rx(ctx.tier, 4, vec![MSS, 1], 0), &tc, &mut out);
+        let tc2 = ThreadsCfg { base_depth: ctx.tier.pick(1, 2), with_suffix: false, ..tc };
+        explore_threads(ctx, &close(ctx.tier, 0), &tc2, &mut out);
     }
     out.rule = "C01: fault plans enumerated by iterative deviation bounding over generated scenarios; distinct_nontrivial = executions with a distinct (timed) datagram+application trace".into();
     out.assumptions.push("payload is position-coded (period 251 with carry), so a wrong offset, duplicate or swap is visible in the data".into());
-    out.assumptions.push("applications and sockets run on one seeded current-thread runtime under tokio's paused clock; sub-poll thread interleavings are not explored".into());
+    out.assumptions.push("two-socket runs: applications and sockets run on one seeded current-thread runtime under tokio's paused clock; thread interleavings between the stream halves and the connection are explored in the threads:* parts (lock-granularity schedules of 2-3 real threads)".into());
     out
 }
 
